@@ -11,6 +11,7 @@ import (
 	"math/big"
 	"os"
 	"path/filepath"
+	"regexp"
 	"slices"
 	"testing"
 
@@ -79,6 +80,7 @@ type World struct {
 	postDump  map[string]string
 	trackFx   bool
 	kernels   map[string]*neotest.Contract
+	oldDirs   map[int64]string
 }
 
 func multisigAccounts(privs []*keys.PrivateKey, m int) []*wallet.Account {
@@ -574,4 +576,75 @@ func (w *World) eventNames() []string {
 		out = append(out, c+"."+ev.Name)
 	}
 	return out
+}
+
+// oldVersionDir: a scratch copy of the working tree whose common.Version constant is v (the "deployed old
+// release" of upgrade replays); removed when the world is closed.
+func (w *World) oldVersionDir(v int64) string {
+	if w.oldDirs == nil {
+		w.oldDirs = map[int64]string{}
+	}
+	if d, ok := w.oldDirs[v]; ok {
+		return d
+	}
+	d, err := os.MkdirTemp("", "neosym-oldver")
+	if err != nil {
+		panic(err)
+	}
+	w.t.cleanups = append(w.t.cleanups, func() { os.RemoveAll(d) })
+	err = filepath.Walk(repoRoot, func(p string, info os.FileInfo, err error) error {
+		if err != nil {
+			return err
+		}
+		rel, _ := filepath.Rel(repoRoot, p)
+		if info.IsDir() {
+			if rel == ".git" {
+				return filepath.SkipDir
+			}
+			return os.MkdirAll(filepath.Join(d, rel), 0755)
+		}
+		if !info.Mode().IsRegular() || info.Size() > 4<<20 {
+			return nil
+		}
+		data, err := os.ReadFile(p)
+		if err != nil {
+			return err
+		}
+		if rel == filepath.Join("common", "version.go") {
+			data = versionConstRe.ReplaceAll(data, []byte(fmt.Sprintf("Version = %d", v)))
+		}
+		return os.WriteFile(filepath.Join(d, rel), data, 0644)
+	})
+	if err != nil {
+		panic(err)
+	}
+	w.oldDirs[v] = d
+	return d
+}
+
+var versionConstRe = regexp.MustCompile(`Version = major\*1_000_000 \+ minor\*1_000 \+ patch`)
+
+// deployOld deploys the named contract built from a copy of the tree whose version constant is v.
+func (w *World) deployOld(name string, v int64, goArgs []any) {
+	d := filepath.Join(w.oldVersionDir(v), "contracts", name)
+	prev, had := w.srcDir[name]
+	w.srcDir[name] = d
+	defer func() {
+		if had {
+			w.srcDir[name] = prev
+		} else {
+			delete(w.srcDir, name)
+		}
+	}()
+	w.deploy(name, goArgs)
+}
+
+// update sends the contract's update(nef, manifest, data) with the executable compiled from the working tree.
+func (w *World) update(name string, signerHashes [][]byte, data []any) (bool, string) {
+	c := w.compile(name)
+	rawManifest, _ := jsonMarshal(c.Manifest)
+	neb, _ := c.NEF.Bytes()
+	var manifestArg any = rawManifest
+	ok, _, fault := w.invoke(name, signerHashes, "update", []any{neb, manifestArg, data})
+	return ok, fault
 }
